@@ -69,13 +69,18 @@ def upsert (step : Option C → C) (drm : String) : List (String × C) → List 
   | [] => [(drm, step none)]
   | (k, v) :: rest => if k == drm then (k, step (some v)) :: rest else (k, v) :: upsert step drm rest
 
-/-- `_calc_extreme(dct, …)` over the items `kids`; `comb case use_ext j cur val` is the category
-level step (`init_extreme_cat` when `cur = none`, then `extrema(new_ext[drm], val, labels, j)`) -/
+/-- the loop of `_calc_extreme` over what it reads per case: `(case, categories, use_ext)` in key
+order; `comb case use_ext j cur val` is the category level step (`init_extreme_cat` when
+`cur = none`, then `extrema(new_ext[drm], val, labels, j)`) -/
+def calcCore (comb : String → Bool → Nat → Option C → C → C)
+    (items : List (String × List (String × C) × Bool)) : List (String × C) :=
+  items.zipIdx.foldl (fun acc p =>
+    p.1.2.1.foldl (fun acc cv => upsert (fun cur => comb p.1.1 p.1.2.2 p.2 cur cv.2) cv.1 acc) acc) []
+
+/-- `_calc_extreme(dct, …)` over the items `kids` -/
 def calcExtreme (comb : String → Bool → Nat → Option C → C → C) (kids : List (String × Res C)) :
     List (String × C) :=
-  (kids.zipIdx.foldl (fun acc p =>
-    let e := extOf p.1.2
-    e.1.foldl (fun acc cv => upsert (fun cur => comb p.1.1 e.2 p.2 cur cv.2) cv.1 acc) acc) [])
+  calcCore comb (kids.map fun k => (k.1, extOf k.2))
 
 mutual
 /-- `_add_extreme(dct, …)` (the tree holds no `'extreme'` entries: `delete_extreme` ran first) -/
@@ -88,6 +93,19 @@ def addKids (comb : String → Bool → Nat → Option C → C → C) :
     List (String × Res C) → List (String × Res C)
   | [] => []
   | (k, v) :: rest => (k, add comb v) :: addKids comb rest
+end
+
+mutual
+/-- the envelope of a structure, written recursively and without any tree surgery: a base event
+stands for its own categories, a group for `extrema` over its members — a member group being
+represented by ITS envelope (`use_ext = true`) -/
+def envOf (comb : String → Bool → Nat → Option C → C → C) : Res C → List (String × C) × Bool
+  | .base cats => (cats, false)
+  | .group kids => (calcCore comb (envKids comb kids), true)
+def envKids (comb : String → Bool → Nat → Option C → C → C) :
+    List (String × Res C) → List (String × List (String × C) × Bool)
+  | [] => []
+  | (k, v) :: rest => (k, envOf comb v) :: envKids comb rest
 end
 
 /-- `form_extreme(ext_name, case_order=None, doappend)` -/
